@@ -167,8 +167,19 @@ StrandFails(e) ==
         /\ Links(K, TRUE, g) = ObsLinks(K, TRUE, reads, KeepOf(reads))
       Y4 == ~st \/ (KeysOf(ta) = KeepOf(e.reads) /\ KeysOf(tb) = KeepOf(e.reads2))
       Y5 == ~st \/ \A i \in 1..Len(e.runs) : FwdOnly(e.reads, e.runs[i].a) /\ FwdOnly(e.reads2, e.runs[i].b)
-  IN {c \in {"Y1", "Y2", "Y3", "Y4", "Y5"} :
-        ~(CASE c = "Y1" -> Y1 [] c = "Y2" -> Y2 [] c = "Y3" -> Y3 [] c = "Y4" -> Y4 [] c = "Y5" -> Y5)}
+      \* the edges the finished graph really reports are the abstract ones: in stranded mode a lookup never falls back to the
+      \* reverse complement (no strand-flipped edge), and after a pipeline that prunes no extension is left dangling
+      EdgesOK(g, ee) == \A i \in 1..Len(ee) :
+                          LET x == ee[i] IN
+                          /\ {Tup3(x[3][j]) : j \in 1..Len(x[3])} = EdgeSetOf(K, st, g, x[1] + 1, x[2])
+                          /\ (st => \A j \in 1..Len(x[3]) : ~x[3][j][3])
+      NoDangling(g) == \A n \in 1..Len(g) : \A d \in {"L", "R"} : \A b \in BasesOf(g[n], d) :
+                          Lookup(K, st, g, ExtK(TermK(K, g[n], d), d, b), d) # {}
+      Y6 == \A i \in 1..Len(e.runs) :
+              /\ EdgesOK(e.runs[i].a, e.runs[i].ea) /\ EdgesOK(e.runs[i].b, e.runs[i].eb)
+              /\ (e.runs[i].pruned => (NoDangling(e.runs[i].a) /\ NoDangling(e.runs[i].b)))
+  IN {c \in {"Y1", "Y2", "Y3", "Y4", "Y5", "Y6"} :
+        ~(CASE c = "Y1" -> Y1 [] c = "Y2" -> Y2 [] c = "Y3" -> Y3 [] c = "Y4" -> Y4 [] c = "Y5" -> Y5 [] c = "Y6" -> Y6)}
 
 \* ---------------------------------------------------------------- iter / iterall (C18)
 \* abstract iterator over the k-mers of a node: state = number of items consumed
